@@ -4,7 +4,10 @@
 // tlsx transport. Four families of peer behaviour are enumerated:
 //
 //	(1) wire faults: the fault menu at every position of the baseline transcript
-//	    of each configuration, both directions (main.go: faultMenu);
+//	    of each configuration, both directions (main.go: faultMenu), two of them
+//	    going through a HelloRetryRequest; every plaintext handshake message of
+//	    those (ClientHello, HelloRetryRequest, ClientHello#2, ServerHello) also
+//	    gets the structure-aware message menu of (2) (plain.go);
 //	(2) keyed faults: every PROTECTED record is opened in flight with the secrets
 //	    of Config.KeyLogWriter, the plaintext edit menu is applied to the message
 //	    inside and the result re-sealed for the receiver, so that it authenticates
@@ -50,6 +53,9 @@ type conf struct {
 	resume  bool   // baseline is the second (resuming) connection
 	zscan   bool   // zcrypto scanning extras on the client
 	feature string // "", "external-ch", "fingerprint": zcrypto-only ClientHello construction paths
+	// hrr: the handshake goes through a HelloRetryRequest: the client prefers X25519 (its only key share) and also lists
+	// P-256, the server accepts P-256 only, so the clear flights are ClientHello, HelloRetryRequest, [CCS], ClientHello#2, ServerHello
+	hrr bool
 }
 
 func confs(thorough bool) []conf {
@@ -67,6 +73,8 @@ func confs(thorough bool) []conf {
 	add(conf{name: "tls12-ecdhe-rsa-zscan", key: "rsa2048", vers: v12, suites: []uint16{tls.TLS_ECDHE_RSA_WITH_AES_256_GCM_SHA384}, zscan: true})
 	add(conf{name: "tls12-external-clienthello", key: "p256", vers: v12, suites: []uint16{tls.TLS_ECDHE_ECDSA_WITH_AES_128_GCM_SHA256}, feature: "external-ch"})
 	add(conf{name: "tls12-fingerprint-certsonly", key: "rsa2048", vers: v12, suites: []uint16{tls.TLS_ECDHE_RSA_WITH_AES_128_GCM_SHA256}, feature: "fingerprint"})
+	add(conf{name: "tls13-hrr-ecdsa", key: "p256", vers: v13, hrr: true})
+	add(conf{name: "tls13-hrr-ed25519-resumed", key: "ed-srv-leaf", vers: v13, hrr: true, resume: true})
 	if thorough {
 		add(conf{name: "tls13-rsa", key: "rsa2048", vers: v13})
 		add(conf{name: "tls13-ecdsa-clientauth", key: "p256", vers: v13, cauth: true})
@@ -108,6 +116,7 @@ type outcome struct {
 	panics  []string
 	stalled bool
 	streams [2][]byte
+	applied int // edits of the case that the stream reached
 }
 
 // externalCH is the ClientHello handshake message handed to Config.ExternalClientHello: the one a plain
@@ -138,6 +147,11 @@ func mkConfigs(cf *conf, seed string) (*tls.Config, *tls.Config) {
 		cc.CipherSuites = cf.suites
 		sc.CipherSuites = cf.suites
 		cc.ForceSuites = true // the client otherwise filters its offer to the small default table (no DHE)
+	}
+	if cf.hrr {
+		cc.CurvePreferences = []tls.CurveID{tls.X25519, tls.CurveP256}
+		sc.CurvePreferences = []tls.CurveID{tls.CurveP256}
+		sc.CipherSuites = []uint16{tls.TLS_AES_128_GCM_SHA256, tls.TLS_CHACHA20_POLY1305_SHA256}
 	}
 	if cf.cauth {
 		cid := tlsx.ClientIdentity("p256b")
@@ -259,9 +273,10 @@ func runOnce(cf *conf, edits []tlsx.Edit, seg int) outcome {
 		}
 		s0.Close()
 	}
+	var applied *int
 	s := tlsx.Handshake(cc, sc, func(n *tlsx.Net) {
 		if len(edits) > 0 {
-			tlsx.InstallEdits(n, edits)
+			applied = tlsx.InstallEdits(n, edits)
 		}
 		if seg > 0 {
 			n.MaxRd[tlsx.C2S], n.MaxRd[tlsx.S2C] = seg, seg
@@ -279,6 +294,9 @@ func runOnce(cf *conf, edits []tlsx.Edit, seg int) outcome {
 	}
 	s.Close()
 	postMortem(s, &o)
+	if applied != nil {
+		o.applied = *applied
+	}
 	o.stalled = s.Net.Stalled
 	o.streams[0], o.streams[1] = s.Net.Stream(tlsx.C2S), s.Net.Stream(tlsx.S2C)
 	ce, se := "ok", "ok"
@@ -296,6 +314,7 @@ type job struct {
 	idx     int
 	cf      *conf
 	edits   []tlsx.Edit
+	cls     string // structure-aware edit of a plaintext handshake message: its message class (plain.go)
 	seg     int
 	raw     *rawJob
 	kcf     *kconf
@@ -579,6 +598,10 @@ func faultMenu(cf *conf, base outcome, thorough bool, emit func(job)) {
 	for _, seg := range []int{1, 2, 3, 5, 7, 16, 100, 1000} {
 		add(seg)
 	}
+	// structure-aware edits of every plaintext handshake message (plain.go)
+	if cf.hrr || thorough {
+		plainMenu(cf, base, thorough, emit)
+	}
 }
 
 func rawJobs(thorough bool, lazy func(func() job)) {
@@ -663,7 +686,8 @@ func trimLateCloseNotify(seen [2][]tlsx.Seen) [2][]tlsx.Seen {
 type meta struct {
 	Faults    map[string]any      `json:"faults"`
 	KeyedBase map[string][]string `json:"keyed_base"`
-	Classes   []string            `json:"classes"` // config + " | " + message class of every protected baseline record
+	Classes   []string            `json:"classes"`      // config + " | " + message class of every protected baseline record
+	WClasses  []string            `json:"wire_classes"` // "wire | " + config + " | " + message class of every plaintext handshake message that gets the structure-aware menu
 	NWire     int                 `json:"n_wire"`
 	NRaw      int                 `json:"n_raw"`
 	NPrefix   int                 `json:"n_prefix"`
@@ -718,7 +742,21 @@ func buildJobs(thorough bool, keep func(i int) bool) ([]job, meta) {
 			broken("baseline of %s did not complete: %s %v", cf.name, b1.cls, b1.panics)
 		}
 		n0 := n
-		faultMenu(cf, b1, thorough, emit)
+		wcls := map[string]bool{}
+		faultMenu(cf, b1, thorough, func(j job) {
+			if j.cls != "" && !wcls[j.cls] {
+				wcls[j.cls] = true
+				m.WClasses = append(m.WClasses, "wire | "+cf.name+" | "+j.cls)
+			}
+			emit(j)
+		})
+		if cf.hrr {
+			for _, want := range []string{"c2s clear ClientHello", "s2c clear HelloRetryRequest", "c2s clear ClientHello#2", "s2c clear ServerHello"} {
+				if !wcls[want] {
+					broken("baseline of %s has no %q among its plaintext handshake messages (no HelloRetryRequest round?)", cf.name, want)
+				}
+			}
+		}
 		n1 := n
 		rawPrefixJobs(cf, b1, lazy)
 		m.Faults[cf.name] = map[string]any{"faults": n1 - n0, "raw_prefix_streams": n - n1, "c2s_bytes": len(b1.streams[0]), "s2c_bytes": len(b1.streams[1]),
@@ -874,6 +912,15 @@ func (r *result) record(j job, jo jobOut) {
 	r.Hist[o.cls]++
 	for _, p := range o.panics {
 		r.Viol = append(r.Viol, violRec{"panic: " + p, j.describe()})
+	}
+	if j.cls != "" && j.cf != nil {
+		key := "wire | " + j.cf.name + " | " + j.cls
+		c := r.Reached[key]
+		c[0]++
+		if o.applied == len(j.edits) {
+			c[1]++
+		}
+		r.Reached[key] = c
 	}
 	if jo.ko != nil && j.k != nil {
 		r.Records += int64(jo.ko.delivered[0] + jo.ko.delivered[1])
